@@ -2477,6 +2477,10 @@ class SymX:
             return ("partial", args[0], tuple(args[1:]), tuple(kwargs))
         if dotted in ("typing.cast",) and len(args) == 2:
             return args[1]
+        if dotted == "functools.reduce" and len(args) in (2, 3) and not kwargs and args[0][0] in ("attr", "fn", "lambda", "bound", "partial"):
+            folded = self._reduce(fterm, args, st, call)
+            if folded is not None:
+                return folded
         if dotted == "itertools.tee" and args:
             res0 = ("call", fterm, args, kwargs)
             for i in range(2 if len(args) < 2 or args[1][0] != "const" else int(args[1][1])):
@@ -2487,6 +2491,35 @@ class SymX:
             res = ("call", fterm, args, kwargs)
         self._record("call", fterm, None, dotted.rsplit(".", 1)[-1], args, kwargs, st, call, res)
         return res
+
+    def _reduce(self, fterm: Term, args: tuple, st: State, call: "ast.Call | None") -> "Term | None":
+        """`reduce(f, s)` / `reduce(f, s, first)` for a step function that hands its second argument on (`return child`): step j is
+        `f(s[j], s[j + 1])` (with a start value: `f(([first] + s)[j], s[j])`). Anything else stays an opaque call."""
+        f, seq_ = args[0], args[1]
+        lid = self.fresh()
+        if len(args) == 2:
+            it: Term = ("slice", seq_, const(1), NONE_T, NONE_T)
+            base = seq_
+        else:
+            it = seq_
+            base = ("binop", "+", ("list", (args[2],)), seq_)
+        j = ("elem", ("call", ("builtin", "range"), (("call", ("builtin", "len"), (it,), ()),), ()), lid)
+        acc: Term = ("idx", base, j)
+        cur: Term = ("elem", it, lid)
+        n_events = len(self.events)
+        saved = st.copy()
+        loop = Loop(lid, "for", it, None, self.fi, call if call is not None else self.fi.node)
+        self.loops.append(loop)
+        try:
+            out = self._apply(f, (acc, cur), (), st, call)
+        finally:
+            self.loops.pop()
+        if out == cur and st.alive:
+            return ("idx", seq_, const(-1))
+        # the step function computes something else: undo the trial run
+        del self.events[n_events:]
+        st.envs, st.heap, st.pc, st.alive = saved.envs, saved.heap, saved.pc, saved.alive
+        return None
 
     def _record(self, kind: str, func: Term, recv: Term | None, name: str, args: tuple, kwargs: tuple, st: State, node: ast.AST | None, result: Term | None) -> None:
         if not st.alive:
